@@ -1,8 +1,8 @@
 use super::db_ops::store_user_in_db;
 use super::storage::AuthStorage;
 use super::types::{
-    AuthError, AuthResult, MAX_SECRET_KEY_LENGTH, MAX_USER_ID_LENGTH, PermissionCache, User,
-    UserCache, UserKey,
+    AuthError, AuthResult, BYPASS_USER_ID, MAX_SECRET_KEY_LENGTH, MAX_USER_ID_LENGTH,
+    NO_AUTH_USER_ID, PermissionCache, User, UserCache, UserKey,
 };
 use crate::shared::config::CONFIG;
 use std::collections::HashMap;
@@ -10,9 +10,15 @@ use std::sync::Arc;
 use tokio::sync::RwLock;
 use tracing::{debug, info, warn};
 
-/// Validates user_id: non-empty, alphanumeric/underscore/hyphen, max MAX_USER_ID_LENGTH.
+/// Validates user_id: non-empty, alphanumeric/underscore/hyphen, max MAX_USER_ID_LENGTH,
+/// and not one of the ids the front ends hand out when authentication is switched off
+/// (handlers skip their permission checks for `BYPASS_USER_ID`).
 fn validate_user_id(user_id: &str) -> AuthResult<()> {
     if user_id.is_empty() {
+        return Err(AuthError::InvalidUserId);
+    }
+
+    if user_id == BYPASS_USER_ID || user_id == NO_AUTH_USER_ID {
         return Err(AuthError::InvalidUserId);
     }
 
